@@ -457,6 +457,47 @@ def run(chk) -> None:
                 lst_ = _ignore_call_args(pos[0], checker)[1]
                 single = norm(lst_) if lst_ is not None else None
             prune_sites.append((c, callsc.count("_check_ignore_specs") >= 2, single))
+    # the other spelling the os.walk documentation suggests: subdirs[:] = [d for d in subdirs if not <ignored>]
+    filter_prunes = []
+    for n in walk_local(walk_for):
+        if not (isinstance(n, ast.Assign) and len(n.targets) == 1 and isinstance(n.targets[0], ast.Subscript) and isinstance(n.targets[0].slice, ast.Slice)
+                and n.targets[0].slice.lower is None and n.targets[0].slice.upper is None and n.targets[0].slice.step is None and isinstance(n.targets[0].value, ast.Name)):
+            continue
+        o = origins(cfg, n.targets[0].value, n)
+        if not (o and all(x.kind == "for" and x.stmt is walk_for and tuple(x.path) == (1,) for x in o)):
+            continue
+        v = n.value
+        if not (isinstance(v, ast.ListComp) and len(v.generators) == 1 and isinstance(v.generators[0].target, ast.Name) and isinstance(v.elt, ast.Name) and v.elt.id == v.generators[0].target.id):
+            continue
+        g = v.generators[0]
+        it = g.iter.args[0] if isinstance(g.iter, ast.Call) and call_name(g.iter) in ("list", "tuple", "sorted") and g.iter.args else g.iter
+        oi = origins(cfg, it, n) if isinstance(it, ast.Name) else []
+        if not (oi and all(x.kind == "for" and x.stmt is walk_for and tuple(x.path) == (1,) for x in oi)):
+            continue
+        # every keep-condition must be the negation of ignore tests and nothing else
+        tests, clean = [], bool(g.ifs)
+        for t in g.ifs:
+            parts = t.values if isinstance(t, ast.BoolOp) and isinstance(t.op, ast.And) else [t]
+            for p_ in parts:
+                if not (isinstance(p_, ast.UnaryOp) and isinstance(p_.op, ast.Not)):
+                    clean = False
+                    continue
+                inner = p_.operand.values if isinstance(p_.operand, ast.BoolOp) and isinstance(p_.operand.op, ast.Or) else [p_.operand]
+                for q_ in inner:
+                    if isinstance(q_, ast.Call) and call_name(q_) == "_check_ignore_specs":
+                        tests.append(q_)
+                    else:
+                        clean = False
+        if not clean:
+            continue  # a filter that is not purely the ignore test: left to R25j, which reports it
+        lists = {norm(_ignore_call_args(t, checker)[1]) for t in tests if _ignore_call_args(t, checker)[1] is not None}
+        fp = _param_names(f)
+        filter_prunes.append(n)
+        pruned = True
+        chk.require(
+            any(x in fp for x in lists) and any(x not in fp for x in lists), "R25e", n,
+            "sub-directory pruning is not guarded by both the outer and the inner ignore test", detail="prune guard",
+        )
     both_in_one = [c for c, both, _ in prune_sites if both]
     singles = {single for _, both, single in prune_sites if not both and single is not None}
     fparams = _param_names(f)
@@ -492,7 +533,7 @@ def run(chk) -> None:
         elif isinstance(n, (ast.Assign, ast.AugAssign, ast.Delete)):
             tg = n.targets if isinstance(n, (ast.Assign, ast.Delete)) else [n.target]
             for t in tg:
-                if isinstance(t, ast.Subscript) and _walk_component(t.value, n, 1):
+                if isinstance(t, ast.Subscript) and _walk_component(t.value, n, 1) and not any(n is fp_ for fp_ in filter_prunes):
                     tgt = n
                 if isinstance(t, ast.Name) and isinstance(n, ast.AugAssign) and _walk_component(ast.Name(id=t.id, ctx=ast.Load()), n, 1):
                     tgt = n
@@ -513,10 +554,17 @@ def run(chk) -> None:
         if a0 is None:
             continue
         loop = _enclosing_for(c, walk_for)
-        if loop is None or loop is walk_for:
+        comp = None
+        pp = getattr(c, "_parent", None)
+        while pp is not None and pp is not walk_for and not isinstance(pp, ast.stmt):
+            if isinstance(pp, (ast.ListComp, ast.GeneratorExp, ast.SetComp)):
+                comp = pp
+                break
+            pp = getattr(pp, "_parent", None)
+        if comp is None and (loop is None or loop is walk_for):
             continue
         st = cfg.stmt_of(c)
-        lv = {x.id for x in ast.walk(loop.target) if isinstance(x, ast.Name)}
+        lv = {x.id for x in ast.walk((comp.generators[0] if comp is not None else loop).target) if isinstance(x, ast.Name)}
         names = set()
         facts = {"dir": False, "entry": False}
 
@@ -526,7 +574,9 @@ def run(chk) -> None:
                     os_ = origins(cfg, x, at)
                     if _walk_component(x, at, 0):
                         facts["dir"] = True
-                    if os_ and all(o.kind == "for" and o.stmt is loop for o in os_):
+                    if comp is None and os_ and all(o.kind == "for" and o.stmt is loop for o in os_):
+                        facts["entry"] = True
+                    if comp is not None and x.id in lv:
                         facts["entry"] = True
                     if depth < 4 and os_ and all(o.kind == "expr" and isinstance(o.expr, ast.AST) for o in os_):
                         for o in os_:
@@ -678,6 +728,24 @@ def _r25d(chk, repo) -> None:
 from ..selftest import Variant  # noqa: E402
 
 VARIANTS = [
+    Variant(
+        "quiet-prune-by-slice-assigned-filter", DISC,
+        "        for subdir in subdirs[:]:  # slice it so that we can modify it in the process.\n            # NOTE: The \"*\" in this next section is a bit of a hack, but pathspec\n            # doesn't like matching _directories_ directly, but if we instead match\n            # `directory/*` we get the same effect.\n            absolute_path = os.path.abspath(os.path.join(dirname, subdir, \"*\"))\n            if _check_ignore_specs(\n                absolute_path, outer_ignore_specs\n            ) or _check_ignore_specs(absolute_path, inner_ignore_specs):\n                subdirs.remove(subdir)\n                continue\n",
+        "        subdirs[:] = [\n            subdir\n            for subdir in subdirs\n            if not (\n                _check_ignore_specs(os.path.abspath(os.path.join(dirname, subdir, \"*\")), outer_ignore_specs)\n                or _check_ignore_specs(os.path.abspath(os.path.join(dirname, subdir, \"*\")), inner_ignore_specs)\n            )\n        ]\n",
+        "QUIET", None, "the pruning idiom of the os.walk documentation",
+    ),
+    Variant(
+        "prune-by-filter-that-also-drops-hidden-directories", DISC,
+        "        for subdir in subdirs[:]:  # slice it so that we can modify it in the process.\n            # NOTE: The \"*\" in this next section is a bit of a hack, but pathspec\n            # doesn't like matching _directories_ directly, but if we instead match\n            # `directory/*` we get the same effect.\n            absolute_path = os.path.abspath(os.path.join(dirname, subdir, \"*\"))\n            if _check_ignore_specs(\n                absolute_path, outer_ignore_specs\n            ) or _check_ignore_specs(absolute_path, inner_ignore_specs):\n                subdirs.remove(subdir)\n                continue\n",
+        "        subdirs[:] = [\n            subdir\n            for subdir in subdirs\n            if not subdir.startswith(\".\") and not (\n                _check_ignore_specs(os.path.abspath(os.path.join(dirname, subdir, \"*\")), outer_ignore_specs)\n                or _check_ignore_specs(os.path.abspath(os.path.join(dirname, subdir, \"*\")), inner_ignore_specs)\n            )\n        ]\n",
+        "R25j", "_iter_files_in_path", "the same idiom with one more condition",
+    ),
+    Variant(
+        "prune-by-filter-on-the-outer-specs-only", DISC,
+        "        for subdir in subdirs[:]:  # slice it so that we can modify it in the process.\n            # NOTE: The \"*\" in this next section is a bit of a hack, but pathspec\n            # doesn't like matching _directories_ directly, but if we instead match\n            # `directory/*` we get the same effect.\n            absolute_path = os.path.abspath(os.path.join(dirname, subdir, \"*\"))\n            if _check_ignore_specs(\n                absolute_path, outer_ignore_specs\n            ) or _check_ignore_specs(absolute_path, inner_ignore_specs):\n                subdirs.remove(subdir)\n                continue\n",
+        "        subdirs[:] = [\n            subdir\n            for subdir in subdirs\n            if not _check_ignore_specs(os.path.abspath(os.path.join(dirname, subdir, \"*\")), outer_ignore_specs)\n        ]\n",
+        "R25e", "_iter_files_in_path", "ignore files found during the walk no longer prune",
+    ),
     Variant(
         "prune-test-built-on-the-walk-root", DISC,
         '            absolute_path = os.path.abspath(os.path.join(dirname, subdir, "*"))\n',
